@@ -121,8 +121,9 @@ async def run_case(acc, clock, slots, prior, req, state, cid, concur=None, step_
         last = out0 - 1
         mid = max(1, (last + 1) // 2)
         bspec, espec = req
-        begin = {"1": 1, "mid": mid, "last": last, "last+1": last + 1, "last+10": last + 10, "0": 0, "-3": -3}[bspec]
-        end = {"0": 0, "b-1": begin - 1, "b": begin, "mid": mid, "last": last, "last+5": last + 5}[espec]
+        malformed = bspec in ("missing", "abc", "empty") or espec in ("missing", "abc", "empty")
+        begin = {"1": 1, "mid": mid, "last": last, "last+1": last + 1, "last+10": last + 10, "0": 0, "-3": -3, "missing": 1, "abc": 1, "empty": 1}[bspec]
+        end = {"0": 0, "b-1": begin - 1, "b": begin, "mid": mid, "last": last, "last+5": last + 5, "missing": 0, "abc": 0, "empty": 0}[espec]
         w.update({"begin": begin, "end": end, "last": last, "journal_before": {k: fixwire.show(v)[:120] for k, v in before.items()}})
         if step_back:
             # the wall clock is set back (NTP step, fail-over to a host whose clock is behind) between the originals and the request:
@@ -161,7 +162,17 @@ async def run_case(acc, clock, slots, prior, req, state, cid, concur=None, step_
             else:
                 ep.vf_writer.drain_hook = drain_hook
             w["concurrent_send_at_drain"] = concur
-        await feed(peer.frame("2", None, [(7, begin), (16, end)]))
+        if malformed:
+            # a ResendRequest whose range cannot be read (tag missing, empty, not a number): nothing to answer, and nothing changes
+            body = []
+            if bspec != "missing":
+                body.append((7, {"abc": "abc", "empty": ""}.get(bspec, begin)))
+            if espec != "missing":
+                body.append((16, {"abc": "abc", "empty": ""}.get(espec, end)))
+            await feed(peer.frame("2", None, body))
+            acc.add("requests_whose_range_cannot_be_read")
+        else:
+            await feed(peer.frame("2", None, [(7, begin), (16, end)]))
         ep.vf_writer.drain_hook = None
         ep.vf_hooks.pop("on_state_change", None)
         w["concurrent_send"] = dict(conc)
@@ -170,11 +181,13 @@ async def run_case(acc, clock, slots, prior, req, state, cid, concur=None, step_
         w["swallowed"] = ep.vf_log.exceptions[exc0:][:3]
         # ---- features for classification
         hi = min(end, last) if end != 0 else last
-        invalid = begin > last or begin <= 0 or (end != 0 and end < begin)
+        invalid = malformed or begin > last or begin <= 0 or (end != 0 and end < begin)
         inrange = [q for q in before if begin <= q <= hi] if not invalid else []
         parsed_before = {q: fixwire.parse(m) for q, m in before.items()}
         feats = []
-        if begin <= 0:
+        if malformed:
+            feats.append("unreadable-range")
+        elif begin <= 0:
             feats.append("nonpositive-begin")
         elif begin > last:
             feats.append("begin-beyond-last")
@@ -293,8 +306,8 @@ async def run_case(acc, clock, slots, prior, req, state, cid, concur=None, step_
         E.stop_tasks(ep)
 
 
-BEGINS = ["1", "mid", "last", "last+1", "last+10", "0", "-3"]
-ENDS = ["0", "b-1", "b", "mid", "last", "last+5"]
+BEGINS = ["1", "mid", "last", "last+1", "last+10", "0", "-3", "missing", "abc", "empty"]
+ENDS = ["0", "b-1", "b", "mid", "last", "last+5", "missing", "abc"]
 
 
 def run_shard(spec, acc):
